@@ -239,6 +239,21 @@ def rule_SH(run: Run) -> RuleResult:
             saw_off = True
         else:
             saw_on = True
+        # polarity and default: a record is emitted exactly when the switch is off, and the switch is off unless set
+        on = switch_polarity(p, "LABREA.LOGGING.DISABLED")
+        if on is True and emits:
+            ok = False
+            why = "a record is emitted although LABREA.LOGGING.DISABLED is on"
+        if on is False and not emits:
+            ok = False
+            why = "nothing is emitted although LABREA.LOGGING.DISABLED is off"
+        for e in p.events:
+            if e.kind in ("unfold", "op") and e.op == "evaluate" and isinstance(e.target, New) and e.target.cls.name == "Option" and e.target.attrs.get("key") is not None \
+                    and e.target.attrs["key"].key() == "Const('LABREA.LOGGING.DISABLED')":
+                dflt = e.target.attrs.get("default")
+                if dflt is None or dflt.key() != "New(Value;value=Const(False))":
+                    ok = False
+                    why = f"the switch defaults to {dflt.key()[:40] if dflt is not None else None}, not to False"
     ok = ok and saw_on and saw_off
     res.add("labrea.logging._builtin_logging_handler:tests LABREA.LOGGING.DISABLED first", ok, lm.relpath, bh.node.lineno,
             why or "the switch is looked up in request.options before anything is emitted; one outcome emits, the other does not", nec)
@@ -356,6 +371,18 @@ def rule_L1(run: Run) -> RuleResult:
     res.add("labrea.logging.Logged.evaluate:exactly one LogRequest(...).run() on every path", bool(ps) and all(c == 1 for c in counts), lg.module.relpath, lg.methods["evaluate"].lineno,
             f"log requests per path: {counts}", nec)
     res.add("labrea.logging.Logged.evaluate:request carries level, name, msg and the options", ok_args, lg.module.relpath, lg.methods["evaluate"].lineno, "", nec)
+    le = repo.cls("LogEffect")
+    lt = le.find_method("transform")
+    if lt is not None:
+        lps_ = [p for p in analyse_method(Ctx(repo), le, "transform") if p.status == "ret"]
+        okl = bool(lps_)
+        shown_ = []
+        for p in lps_:
+            runs = [e for e in p.events if e.kind == "call" and e.text == "run" and isinstance(e.target, Sym) and e.target.head == "new:LogRequest"]
+            shown_ += [e.target.key()[:80] for e in runs]
+            if len(runs) != 1 or not runs[0].target.key().startswith("new:LogRequest(Child(level),Child(name),Child(msg),"):
+                okl = False
+        res.add("labrea.logging.LogEffect.transform:one LogRequest carrying level, name, msg and the options", okl, le.module.relpath, lt[1].lineno, f"{shown_[:2]}", nec)
     for op in ("validate", "keys", "explain"):
         ps = run.paths(lg, op)
         n = sum(1 for p in ps for e in p.events if e.kind == "call" and "LogRequest" in e.text)
